@@ -36,6 +36,7 @@ class CallGraph:
         self.p = project
         self.sites = {}       # FunctionInfo -> [CallSite]
         self.edges = {}       # FunctionInfo -> set(FunctionInfo)
+        self.precise = {}     # same, without name-based CHA edges
         self.callers = {}     # FunctionInfo -> [CallSite]
         self._prop_names = {}
         for c in project.all_classes:
@@ -67,17 +68,25 @@ class CallGraph:
             ent = self.p.resolve_expr(m, fn)
             if isinstance(ent, ClassInfo):
                 return [ent]
-            if isinstance(ent, FunctionInfo) and depth < 1:
+            cands = []
+            if isinstance(ent, FunctionInfo):
+                cands = [ent]
+            elif isinstance(fn, ast.Attribute) and isinstance(fn.value, ast.Name) \
+                    and fn.value.id == "self" and f.cls is not None:
+                cands = self.p.cha_methods(f.cls, fn.attr)
+            if cands and depth < 1:
                 out = []
-                rets = [n for n in ast.walk(ent.node)
-                        if isinstance(n, ast.Return) and n.value is not None]
-                if not rets:
-                    return []
-                for r in rets:
-                    cs = self._ctor_classes(ent, r.value, depth + 1)
-                    if not cs:
+                for ent in cands:
+                    rets = [n for n in ast.walk(ent.node)
+                            if isinstance(n, ast.Return)
+                            and n.value is not None]
+                    if not rets:
                         return []
-                    out += cs
+                    for r in rets:
+                        cs = self._ctor_classes(ent, r.value, depth + 1)
+                        if not cs:
+                            return []
+                        out += [c for c in cs if c not in out]
                 return out
         if isinstance(expr, ast.Name) and expr.id == "self" and f.cls is not None:
             return [f.cls]
@@ -240,6 +249,7 @@ class CallGraph:
     def _analyse(self, f):
         sites = []
         edges = set()
+        precise = set()
         ltypes = self.local_types(f)
         locs = self._locals(f)
         for n in own_nodes(f.node):
@@ -250,11 +260,14 @@ class CallGraph:
                 for t in targets:
                     if isinstance(t, FunctionInfo):
                         edges.add(t)
+                        if kind != "cha":
+                            precise.add(t)
                         self.callers.setdefault(t, []).append(cs)
                     elif isinstance(t, ClassInfo):
                         init = self.p.find_method(t, "__init__")
                         if init is not None:
                             edges.add(init)
+                            precise.add(init)
                             self.callers.setdefault(init, []).append(cs)
             elif isinstance(n, ast.Attribute) and isinstance(n.ctx, ast.Load):
                 # property reads
@@ -265,6 +278,7 @@ class CallGraph:
                             and lexcls is not None:
                         for t in self.p.cha_methods(lexcls, n.attr):
                             edges.add(t)
+                            precise.add(t)
                     elif not self._is_external_expr(f, n.value):
                         for t in props:
                             edges.add(t)
@@ -273,16 +287,19 @@ class CallGraph:
                     ent = self.p.resolve_expr(f.module, n)
                     if isinstance(ent, FunctionInfo):
                         edges.add(ent)
+                        precise.add(ent)
             elif isinstance(n, ast.Name) and isinstance(n.ctx, ast.Load) \
                     and n.id not in locs:
                 ent = self.p.resolve_expr(f.module, n)
                 if isinstance(ent, FunctionInfo):
                     edges.add(ent)
+                    precise.add(ent)
         self.sites[f] = sites
         self.edges[f] = edges
+        self.precise[f] = precise
 
     # --------------------------------------------------------- reachability
-    def reachable(self, entries):
+    def reachable(self, entries, precise=False):
         """Breadth-first, so parent pointers give shortest call paths."""
         from collections import deque
         seen = {}
@@ -293,7 +310,8 @@ class CallGraph:
                 work.append(e)
         while work:
             f = work.popleft()
-            for t in sorted(self.edges.get(f, ()), key=lambda x: x.fq):
+            graph = self.precise if precise else self.edges
+            for t in sorted(graph.get(f, ()), key=lambda x: x.fq):
                 tt = t
                 # a nested function's analysis is folded into its parent
                 while tt.parent is not None:
